@@ -204,10 +204,17 @@ def dg(rec: Rec):
                cls=None)
 
 
-def composite(*recs):
+def composite(*recs, shared=False):
     from skfem import ElementComposite
+
+    def make():
+        if shared:
+            # `e = ElementTriP2(); e * e`: ONE element object serves as several components
+            made = {}
+            return ElementComposite(*[made.setdefault(r.name, r.make()) for r in recs])
+        return ElementComposite(*[r.make() for r in recs])
     return Rec(name="Composite(" + ",".join(r.name for r in recs) + ")",
-               make=lambda: ElementComposite(*[r.make() for r in recs]), kind=recs[0].kind, family="composite",
+               make=make, kind=recs[0].kind, family="composite",
                conforming=None, complete=min(r.complete for r in recs), nodal=False, pou="none",
                mesh_req="affine" if any(r.mesh_req != "any" for r in recs) else "any",
                facet_basis=all(r.facet_basis for r in recs), cls=None)
@@ -239,6 +246,12 @@ def composites(kind):
         hi = {"tri": "ElementTriP2", "tet": "ElementTetP2", "quad": "ElementQuad2", "hex": "ElementHex2"}[kind]
         lo = {"tri": "ElementTriP1", "tet": "ElementTetP1", "quad": "ElementQuad1", "hex": "ElementHex1"}[kind]
         out.append(composite(vector(by_name(hi)), by_name(lo)))
+    # two (three) components that are one and the same element object
+    same = {"line": "ElementLineP2", "tri": "ElementTriP2", "quad": "ElementQuad2", "tet": "ElementTetP1", "hex": "ElementHex1"}.get(kind)
+    if same:
+        out.append(composite(by_name(same), by_name(same), shared=True))
+    if kind == "tri":
+        out.append(composite(by_name("ElementTriP1"), by_name("ElementTriP2"), by_name("ElementTriP1"), shared=True))
     return out
 
 
